@@ -33,6 +33,11 @@ func (x *World) observeAll() *Violation {
 			return x.viol("lock", "IsLocked()=%v, model has %d open queries", got, x.M.OpenCount())
 		}
 	}
+	if x.Or.Res {
+		if v := x.checkResources(); v != nil {
+			return v
+		}
+	}
 	if x.Or.Pool {
 		if v := x.checkPool(); v != nil {
 			return v
@@ -422,6 +427,11 @@ func (x *World) callback(o int, e ecs.Entity, ptrs []unsafe.Pointer) {
 	if x.Or.InCb && x.cbViol == nil {
 		if v := x.inCallback(o, e, ptrs); v != nil {
 			x.cbViol = v
+		}
+	}
+	if isRemovalEvent(spec.Event) || (x.curOp != nil && isBatch(x.curOp.K)) {
+		if !e.IsZero() {
+			x.probeLocked(e)
 		}
 	}
 	switch spec.Action {
